@@ -14,6 +14,9 @@ func init() { gens["C19"] = genC19 }
 // c19Tables renders the identity tables the real code built:  `E`  (rejected)  or
 // `T <nchan> <channelsPerPixel> <n> (name number code row col rows cols)* G <ng> (first n)*`.
 func c19Tables(t dastard.VerifC19Tables) string {
+	if t.ConfigOnly && !t.Rejected {
+		return "K" // a Configure request that was accepted
+	}
 	if t.Rejected {
 		return "E"
 	}
@@ -390,7 +393,7 @@ func c19History(r *Rng, o *Out) {
 	var sb strings.Builder
 	fmt.Fprintf(&sb, "H %d", nsteps)
 	switch c := r.Intn(100); {
-	case c < 70: // Lancero
+	case c < 62: // Lancero
 		steps := make([]dastard.VerifC19LanceroStep, 0, nsteps)
 		devs, firstRow, sepCards, sepCols, total := c19LanceroCfg(r)
 		for len(devs) == 0 {
@@ -474,13 +477,18 @@ func c19History(r *Rng, o *Out) {
 			return c19HistOut(ts, ds, start)
 		})
 		o.Case("%s OUT %s", sb.String(), out)
-	case c < 88: // Abaco
+	case c < 80: // Abaco
 		hist := make([][][][2]int, nsteps)
 		total := 0
 		for k := range hist {
-			if k > 0 && r.Chance(20) {
+			switch c := r.Intn(100); {
+			case k > 0 && c < 15:
 				hist[k] = hist[k-1]
-			} else {
+			case k > 0 && c < 50:
+				// another layout with the SAME number of groups and the SAME number of channels: all groups
+				// shifted, or the group sizes handed out in another order
+				hist[k] = c19AbacoSameTotals(r, hist[k-1])
+			default:
 				hist[k], total = c19AbacoLayout(r)
 			}
 			sb.WriteString(" ")
@@ -493,18 +501,81 @@ func c19History(r *Rng, o *Out) {
 			return c19HistOut(ts, ds, start)
 		})
 		o.Case("%s OUT %s", sb.String(), out)
-	case c < 95: // simulated
+	case c < 95: // simulated: Configure requests (accepted, refused at once, refused AFTER the channel count was looked at) and Starts
 		kind := r.Intn(2)
-		nchans := make([]int, nsteps)
-		for k := range nchans {
-			nchans[k] = r.Pick(1, 2, 3, 4, 8, 16, 33, 100, 0, r.Range(1, 300))
-			fmt.Fprintf(&sb, " S %d %d", kind, nchans[k])
+		if r.Chance(35) { // the older form: every step = accepted-or-refused Configure + Sample + PrepareChannels
+			nchans := make([]int, nsteps)
+			for k := range nchans {
+				nchans[k] = r.Pick(1, 2, 3, 4, 8, 16, 33, 100, 0, r.Range(1, 300))
+				fmt.Fprintf(&sb, " S %d %d", kind, nchans[k])
+			}
+			last := nchans[nsteps-1]
+			start := last > 0 && last <= 96 && r.Chance(30)
+			fmt.Fprintf(&sb, " %d", b2i(start))
+			out := c19Guard(func() string {
+				ts, ds := dastard.VerifC19GenericSeq(kind, nchans)
+				return c19HistOut(ts, ds, start)
+			})
+			o.Case("%s OUT %s", sb.String(), out)
+			return
 		}
-		last := nchans[nsteps-1]
-		start := last > 0 && last <= 96 && r.Chance(30)
+		var ops []dastard.VerifC19SimOp
+		stored := 0 // the channel count the source holds
+		conf := func(n int, late bool) {
+			ops = append(ops, dastard.VerifC19SimOp{Configure: true, Nchan: n, Late: late})
+			if n >= 1 {
+				stored = n
+			}
+		}
+		prep := func() { ops = append(ops, dastard.VerifC19SimOp{}) }
+		a := r.Pick(1, 2, 4, 8, 16, 33, r.Range(1, 120))
+		b := a
+		for b == a {
+			b = r.Pick(1, 2, 3, 5, 8, 12, 40, a+1, a+r.Range(1, 60), maxi(1, a-1), maxi(1, a/2), r.Range(1, 120))
+		}
+		switch r.Intn(6) {
+		case 0: // never configured successfully, then a late refusal, then Start
+			conf(b, true)
+			prep()
+		case 1, 2: // accepted A, late-refused B (shrink or grow), Start
+			conf(a, false)
+			if r.Bool() {
+				prep()
+			}
+			conf(b, true)
+			prep()
+		case 3: // refused at once (no channel count taken), Start still shows A
+			conf(a, false)
+			conf(r.Pick(0, -1, -5), r.Bool())
+			prep()
+		default: // random walk
+			for k := 0; k < nsteps+1; k++ {
+				switch c := r.Intn(10); {
+				case c < 3:
+					conf(r.Pick(a, b, r.Range(1, 120)), false)
+				case c < 6:
+					conf(r.Pick(a, b, r.Range(1, 120)), true)
+				case c < 7:
+					conf(r.Pick(0, -1), r.Bool())
+				default:
+					prep()
+				}
+			}
+			prep()
+		}
+		sb.Reset()
+		fmt.Fprintf(&sb, "H %d", len(ops))
+		for _, op := range ops {
+			if op.Configure {
+				fmt.Fprintf(&sb, " C %d %d %d", kind, op.Nchan, b2i(op.Late))
+			} else {
+				sb.WriteString(" P")
+			}
+		}
+		start := stored > 0 && stored <= 96 && r.Chance(60)
 		fmt.Fprintf(&sb, " %d", b2i(start))
 		out := c19Guard(func() string {
-			ts, ds := dastard.VerifC19GenericSeq(kind, nchans)
+			ts, ds := dastard.VerifC19SimSeq(kind, ops)
 			return c19HistOut(ts, ds, start)
 		})
 		o.Case("%s OUT %s", sb.String(), out)
@@ -538,4 +609,48 @@ func c19HistOut(ts []dastard.VerifC19Tables, ds *dastard.AnySource, start bool) 
 		return sb.String() + " " + c19Start(ds)
 	}
 	return sb.String() + " F 0"
+}
+
+// c19AbacoSameTotals derives a different group layout with the same group count and channel total.
+func c19AbacoSameTotals(r *Rng, prev [][][2]int) [][][2]int {
+	seen := map[[2]int]bool{}
+	var gs [][2]int
+	for _, p := range prev {
+		for _, g := range p {
+			if !seen[g] {
+				seen[g] = true
+				gs = append(gs, g)
+			}
+		}
+	}
+	out := make([][2]int, len(gs))
+	copy(out, gs)
+	if r.Bool() || len(gs) < 2 {
+		d := r.Pick(1, 2, 8, 64, 1000)
+		for i := range out {
+			if out[i][0]+d <= 4294967295 {
+				out[i][0] += d
+			}
+		}
+	} else {
+		// same sizes in rotated order, laid out adjacently from the smallest first channel
+		first := out[0][0]
+		for _, g := range out {
+			if g[0] < first {
+				first = g[0]
+			}
+		}
+		k := r.Range(1, len(out)-1)
+		next := first
+		for i := range out {
+			n := gs[(i+k)%len(gs)][1]
+			out[i] = [2]int{next, n}
+			next += n
+		}
+	}
+	for k := len(out) - 1; k > 0; k-- {
+		j := r.Intn(k + 1)
+		out[k], out[j] = out[j], out[k]
+	}
+	return [][][2]int{out}
 }
